@@ -409,11 +409,18 @@ def rule_qos(R):
                 uses.append(("identifier decision", peel(peel(t)[3][0]), c.span))
         if c.is_("Connection::<'_, 'buf, IO>::can_publish", "can_publish") and len(c.args) > 1:
             uses.append(("capacity gate", code.operand_term(c.args[1]), c.span))
+    P_ = ops.pipeline(f, "publish")
     for bb in code.switches:
         si = code.switch_info(bb)
         s = peel(si["subject"])
         if is_call(s, "PartialEq::eq", "eq") and any(x[0] == "agg" and x[3] == "ExactlyOnce" for x in walk(s)):
             uses.append(("handle kind", peel(s[3][0]), code.line(bb)))
+        # `if qos > AtMostOnce { Some(next_packet_id()) } else { None }` -- also what `(qos > ..).then(|| ..)` reads as
+        if is_call(s, "PartialOrd::gt", "gt") and any(x[0] == "agg" and x[3] == "AtMostOnce" for x in walk(s)) \
+                and si["edges"].get(True) is not None and P_.alloc_sites \
+                and all(code.must_pass([0], [a], via_edges=[(bb, si["edges"][True])])[0] for a in P_.alloc_sites) \
+                and not any(u[0] == "identifier decision" for u in uses):
+            uses.append(("identifier decision", peel(s[3][0]), code.line(bb)))
     R.floor("qos/uses", len(uses), 3, "uses of the effective QoS in publish")
     for what, t, span in uses:
         R.ob("qos/%s" % what.replace(" ", "-"), same_shape(peel(t), peel(q)),
